@@ -509,17 +509,7 @@ func (env *Env) execBlock(list []ast.Stmt) ([]*Val, bool) {
 				if c, ok := ast.Unparen(x.Rhs[0]).(*ast.CallExpr); ok && len(x.Rhs) == 1 && env.Multi != nil {
 					if vals, ok := env.Multi(env, c); ok && len(vals) == len(x.Lhs) {
 						for i, l := range x.Lhs {
-							if o := objOf(info, l); o != nil {
-								env.Vars[o] = vals[i]
-							} else if lx, isSel := ast.Unparen(l).(*ast.SelectorExpr); isSel {
-								base := env.eval(lx.X)
-								for base.Ptr != nil {
-									base = base.Ptr
-								}
-								if base.Fields != nil {
-									base.Fields[lx.Sel.Name] = vals[i]
-								}
-							}
+							env.assignTo(l, vals[i])
 						}
 						continue
 					}
@@ -538,23 +528,9 @@ func (env *Env) execBlock(list []ast.Stmt) ([]*Val, bool) {
 			}
 			for i, l := range x.Lhs {
 				v := env.eval(x.Rhs[i])
-				switch lx := ast.Unparen(l).(type) {
-				case *ast.Ident:
-					if o := objOf(info, lx); o != nil {
-						env.Vars[o] = v
-						continue
-					}
-				case *ast.SelectorExpr:
-					base := env.eval(lx.X)
-					for base.Ptr != nil {
-						base = base.Ptr
-					}
-					if base.Fields != nil {
-						base.Fields[lx.Sel.Name] = v
-						continue
-					}
+				if !env.assignTo(l, v) {
+					env.fail(x, "assignment target")
 				}
-				env.fail(x, "assignment target")
 			}
 		case *ast.SwitchStmt:
 			if x.Init != nil {
@@ -670,6 +646,12 @@ func (env *Env) assignTo(l ast.Expr, v *Val) (ok bool) {
 		}
 		if base.Fields != nil {
 			base.Fields[lx.Sel.Name] = v
+			return true
+		}
+	case *ast.StarExpr:
+		// *dst = v: the pointee takes the value (every holder of the pointer sees it)
+		if pv := env.eval(lx.X); pv != nil && pv.Ptr != nil && v != nil {
+			*pv.Ptr = *v
 			return true
 		}
 	}
